@@ -5,7 +5,13 @@ V = os.path.dirname(os.path.dirname(os.path.abspath(__file__)))
 props = [json.loads(l) for l in open(os.path.join(V, "properties.jsonl"))]
 SEQ_NOTE = ("trusted: gcc/ASan/UBSan, the reference model in seq/, the harness stubs that replace only I/O callbacks and "
             "_exit; the code under test is the real translation unit rebuilt from /repo's working tree")
+VK_NOTE = ("trusted: the virtual kernel model (vk/kernel.hpp, vk/ops.hpp; bound to Linux by vk/conformance), the LD_PRELOAD shim, the scenario's "
+           "oracle; the programs are the unmodified binaries built from /repo's working tree by its own Makefile")
 CHECKS = {
+ "C01": dict(engine="VK", category="fault_enumeration", design_ref="4/C01",
+             technique="stateless exhaustive exploration of the real qmail-queue binary under a virtual kernel: every input of a boundary grid x every system-call index x {process kill, machine crash with every keep/lose pattern of unsynced data, every applicable errno, short write, short/interrupted read}; invariant evaluated after every call and on every post-crash image",
+             text="The property quantifies over crash instants and single I/O failures; the explorer visits every one of them for every input of the grid (one deviation quick, all pairs thorough) on the real binary, so within those bounds the ordering 'fsync both, then one link' and the cleanup paths are decided exhaustively.",
+             note=VK_NOTE),
  "C10": dict(engine="SEQ", category="exploration", design_ref="4/C10",
              technique="exhaustive product of control-file configurations (4x256x4x2, real files read by the real getcontrols()/regetcontrols()) x 143 generated addresses through the real rewrite(), and senderadd() over a sender/recipient grid, against an independent model of qmail-send(8)/addresses(5)",
              text="Rule precedence only shows where several rules match at once; the full subset product of a pool that contains every rule kind (user, domain, nested wildcards, catch-all, exceptions, locals, percent hack) makes every such overlap occur, and every address of the pool is routed under every configuration and compared with the model.",
